@@ -34,6 +34,9 @@ func Glob(pattern, input string, opts ...Option) bool {
 			asterisk = true
 			i++
 		} else {
+			if j >= len(input) {
+				return false
+			}
 			match := pattern[i] == input[j]
 			if !asterisk && !match {
 				return false
